@@ -670,6 +670,49 @@ _IO_FRONT_END = ("get_from_", "read_from_", "write_to_", "_parse_and_")
 _IO_FRONT_END_EXACT = {"yield_from_files", "get_reader", "get_writer", "get_tree_yielder", "as_string", "_format_and_write_to_stream", "_write_to"}
 
 
+def base_init_forwarding_rule(index, rep, rid, modules):
+    """a constructor option that the base class also has goes to the base class: where a subclass `__init__` calls the
+    `__init__` of a base class explicitly, every parameter of its own that the base constructor has under the same name
+    is passed in that call (or `*args` / `**kwargs` are). Handling the option afterwards in the subclass instead runs
+    after the base constructor has already compiled its state without it (the alphabets build their look-up tables
+    there), so what the option was to switch on is never wired in."""
+    n = 0
+    for m in modules:
+        mod = index.module(m)
+        for k in [c for c in index.classes.values() if c.module is mod]:
+            init = k.methods.get("__init__")
+            if init is None:
+                continue
+            a = init.node.args
+            own = [p_.arg for p_ in a.posonlyargs + a.args + a.kwonlyargs if p_.arg != "self"]
+            if not own:
+                continue
+            for c in calls_in(init.node):
+                if call_name(c) != "__init__" or not isinstance(c.func, ast.Attribute):
+                    continue
+                basen = norm(c.func.value)
+                binit = None
+                for b in index.mro(k):
+                    if b.qualname != k.qualname and (b.name == basen.split(".")[-1] or basen.startswith("super")) and "__init__" in b.methods:
+                        binit = b.methods["__init__"]
+                        break
+                if binit is None:
+                    continue
+                ba = binit.node.args
+                bparams = [p_.arg for p_ in ba.posonlyargs + ba.args + ba.kwonlyargs if p_.arg != "self"]
+                shared = [p_ for p_ in own if p_ in bparams]
+                if not shared:
+                    continue
+                n += 1
+                if any(kw.arg is None for kw in c.keywords) or any(isinstance(x, ast.Starred) for x in c.args):
+                    continue
+                passed = {kw.arg for kw in c.keywords if kw.arg} | {x.id for x in c.args if isinstance(x, ast.Name)}
+                miss = [p_ for p_ in shared if p_ not in passed]
+                rep.check(not miss, rid, init.qualname, "option `%s` not handed to the base constructor" % (miss[0] if miss else ""), fn_where(init, c), "%s hands %s to %s" % (init.qualname, shared, binit.qualname),
+                          "%s has the parameter(s) %s, which %s also has, and calls it without them (`%s`): the base constructor runs - and compiles what depends on the option - as if it had not been given; wiring the option in afterwards comes too late (a RestrictionSitesStateAlphabet built this way never marks `-` as a gap, and gaps-as-missing scoring counts it as a third state: 10 changes instead of 5)" % (init.qualname, miss, binit.qualname, norm(c)[:70]))
+    return n
+
+
 DOCUMENTED_ORDER_TODAY = {
     "dendropy.datamodel.treemodel._tree.Tree.filter_leaf_nodes": "documentation lists suppress_unifurcations before update_bipartitions, the signature has them the other way round - today's state, every caller in the library passes them by keyword",
 }
@@ -1701,6 +1744,7 @@ def generic_rules(prop, index, rep):
         nw += orphaned_local_rule(index, rep, rid, mods)
         nw += io_kwargs_rule(index, rep, rid, mods)
         nw += documented_order_rule(index, rep, rid, mods)
+        nw += base_init_forwarding_rule(index, rep, rid, mods)
         nw += option_handed_down_rule(index, rep, rid, mods)
         nw += settings_clone_rule(index, rep, rid, mods)
         rep.ob(rid, "src/dendropy", "%d resolved calls in the property's modules examined" % nw, True)
